@@ -145,6 +145,9 @@ impl Decoder for Socks5UdpCodec {
         }
         src.advance(3);
         let recipient = address::decode(src)?;
+        if matches!(&recipient, crate::protocol::address::Address::Domain(host, _) if host.is_empty()) {
+            bail!("Discarding payload for an empty host name");
+        }
         Ok(Some((src.split_off(0), recipient)))
     }
 }
